@@ -229,3 +229,193 @@ Qed.
 (* Less is not a strict order: it answers true in both directions on tied tuples *)
 Example tk_less_not_strict : exists t, tk_less t t = true.
 Proof. exists (mk_tkey [] [] [] None). reflexivity. Qed.
+
+(* ------------------------------------------------------------------ InvariantCacheKey *)
+Definition tuples_equiv (ts1 ts2 : list tkey) : Prop :=
+  exists ts1', Permutation ts1 ts1' /\ Forall2 tuple_equiv ts1' ts2.
+
+Lemma Forall2_perm_r {A B} (R : A -> B -> Prop) l1 l2 l2' :
+  Forall2 R l1 l2 -> Permutation l2 l2' -> exists l1', Permutation l1 l1' /\ Forall2 R l1' l2'.
+Proof.
+  intros Hf HP. revert l1 Hf. induction HP as [|y l2 l2' HP IH|x y l2|l2 l2' l2'' HP1 IH1 HP2 IH2]; intros l1 Hf.
+  - inversion Hf; subst. exists []. split; [reflexivity|constructor].
+  - inversion Hf as [|a ? l1t ? Ha Hf']; subst.
+    destruct (IH l1t Hf') as [l1' [P F]]. exists (a :: l1'). split; [constructor; exact P|constructor; assumption].
+  - inversion Hf as [|a ? l1t ? Ha Hf']; subst. inversion Hf' as [|b ? l1tt ? Hb Hf'']; subst.
+    exists (b :: a :: l1tt). split; [apply perm_swap|]. constructor; [exact Hb|]. constructor; assumption.
+  - destruct (IH1 l1 Hf) as [m [P1 F1]]. destruct (IH2 m F1) as [m' [P2 F2]].
+    exists m'. split; [eapply Permutation_trans; eassumption|exact F2].
+Qed.
+
+Lemma Forall2_len {A B} (R : A -> B -> Prop) l1 l2 : Forall2 R l1 l2 -> length l1 = length l2.
+Proof. induction 1; simpl; congruence. Qed.
+
+Definition inv_wf (ctx : fields) (ts : list tkey) : bool :=
+  pb_wf (PStruct ctx) && forallb tk_wf ts.
+Definition inv_keys_unique (ctx : fields) (ts : list tkey) : bool :=
+  pb_keys_unique (PStruct ctx) && forallb tk_keys_unique ts.
+
+Section AnySort.
+  (* "=>" needs only that the sort returns a permutation: it holds for pdqsort as well *)
+  Variable srt : list tkey -> list tkey.
+  Hypothesis srt_perm : forall l, Permutation (srt l) l.
+
+  Definition inv_bytes_with (store model : bytes) (ctx : fields) (tuples : list tkey) : bytes :=
+    enc_string store ++ enc_string model ++
+    enc_array_hdr (length tuples) ++ flat_map enc_tuple (srt tuples) ++ pb_write (PStruct ctx).
+
+  Theorem inv_bytes_with_inj s1 m1 c1 ts1 s2 m2 c2 ts2 :
+    inv_wf c1 ts1 = true -> inv_wf c2 ts2 = true ->
+    inv_bytes_with s1 m1 c1 ts1 = inv_bytes_with s2 m2 c2 ts2 ->
+    s1 = s2 /\ m1 = m2 /\ ctx_equiv c1 c2 /\ tuples_equiv ts1 ts2.
+  Proof.
+    unfold inv_wf, inv_bytes_with. intros W1 W2 H.
+    apply andb_true_iff in W1 as [Wc1 Wt1]. apply andb_true_iff in W2 as [Wc2 Wt2].
+    apply enc_string_pf in H as [-> H]. apply enc_string_pf in H as [-> H].
+    apply enc_array_hdr_pf in H as [Hn H].
+    assert (F1 : Forall (fun t => tk_wf t = true) (srt ts1)).
+    { rewrite Forall_forall. rewrite forallb_forall in Wt1. intros t Ht. apply Wt1.
+      eapply Permutation_in; [apply srt_perm|exact Ht]. }
+    assert (F2 : Forall (fun t => tk_wf t = true) (srt ts2)).
+    { rewrite Forall_forall. rewrite forallb_forall in Wt2. intros t Ht. apply Wt2.
+      eapply Permutation_in; [apply srt_perm|exact Ht]. }
+    rewrite <- (app_nil_r (pb_write (PStruct c1))), <- (app_nil_r (pb_write (PStruct c2))) in H.
+    rewrite !app_assoc in H. rewrite <- !(app_assoc (flat_map enc_tuple _)) in H.
+    apply enc_tuples_pf in H; try assumption.
+    - destruct H as [Hf Hc]. rewrite !app_nil_r, !pb_write_eq_rec in Hc.
+      split; [reflexivity|]. split; [reflexivity|]. split.
+      + apply enc_pb_inj; assumption.
+      + destruct (Forall2_perm_r _ _ _ _ Hf (srt_perm ts2)) as [l1' [P F]].
+        exists l1'. split; [|exact F]. eapply Permutation_trans; [apply Permutation_sym, srt_perm|exact P].
+    - rewrite (Permutation_length (srt_perm ts1)), (Permutation_length (srt_perm ts2)). exact Hn.
+    - apply pb_write_struct_start.
+    - apply pb_write_struct_start.
+  Qed.
+End AnySort.
+
+Lemma inv_bytes_is_with store model ctx ts :
+  inv_bytes store model ctx ts = inv_bytes_with sort_tuples store model ctx ts.
+Proof. reflexivity. Qed.
+
+(* invariant_key_sem, "=>": equal pre-hash bytes only for semantically equal inputs *)
+Theorem invariant_key_inj s1 m1 c1 ts1 s2 m2 c2 ts2 :
+  inv_wf c1 ts1 = true -> inv_wf c2 ts2 = true ->
+  inv_bytes s1 m1 c1 ts1 = inv_bytes s2 m2 c2 ts2 ->
+  s1 = s2 /\ m1 = m2 /\ ctx_equiv c1 c2 /\ tuples_equiv ts1 ts2.
+Proof. rewrite !inv_bytes_is_with. apply inv_bytes_with_inj. apply sort_tuples_perm. Qed.
+
+(* ---- "<=": canonicity, when tied tuples are identical *)
+Definition ekey (t : tkey) : (bytes * bytes * bytes * bytes) * bytes := (skey t, enc_tuple t).
+Definition eless (x y : (bytes * bytes * bytes * bytes) * bytes) : bool :=
+  match cmp4 (fst x) (fst y) with Gt => false | _ => true end.
+Definition ele (x y : (bytes * bytes * bytes * bytes) * bytes) : Prop := le4 (fst x) (fst y).
+
+Lemma tie_free_spec l : tie_free l = true ->
+  forall a b, In a l -> In b l -> tk_tie a b = true -> enc_tuple a = enc_tuple b.
+Proof.
+  induction l as [|x l IH]; simpl; intros H a b Ha Hb Ht; [contradiction|].
+  apply andb_true_iff in H as [H1 H2]. rewrite forallb_forall in H1.
+  destruct Ha as [->|Ha], Hb as [->|Hb].
+  - reflexivity.
+  - specialize (H1 b Hb). rewrite Ht in H1. simpl in H1. apply beqb_eq. exact H1.
+  - assert (Ht' : tk_tie b a = true) by (unfold tk_tie in *; rewrite andb_comm; exact Ht).
+    specialize (H1 a Ha). rewrite Ht' in H1. simpl in H1. symmetry. apply beqb_eq. exact H1.
+  - apply IH; assumption.
+Qed.
+
+Lemma tuple_equiv_ekey a b :
+  tuple_equiv a b -> tk_keys_unique a = true -> ekey a = ekey b.
+Proof.
+  unfold tuple_equiv, ekey, skey, tk_keys_unique, cond_name. rewrite !enc_tuple_unfold. unfold cond_bytes.
+  intros [Eo [Er [Eu Ec]]] U. rewrite Eo, Er, Eu.
+  destruct (tk_cond a) as [[n1 c1]|], (tk_cond b) as [[n2 c2]|]; try contradiction.
+  - destruct Ec as [-> Ec]. rewrite !pb_write_eq_rec. rewrite (enc_pb_equiv _ _ Ec U). reflexivity.
+  - reflexivity.
+Qed.
+
+Lemma sort_tuples_enc l :
+  flat_map enc_tuple (sort_tuples l) = flat_map snd (go_isort eless (map ekey l)).
+Proof.
+  unfold sort_tuples. rewrite <- (go_isort_map ekey tk_less eless).
+  - rewrite flat_map_map. reflexivity.
+  - intros a b. unfold eless, ekey. simpl. symmetry. apply tk_less_cmp4.
+Qed.
+
+Theorem invariant_key_canonical s m c1 ts1 c2 ts2 :
+  inv_keys_unique c1 ts1 = true -> tie_free ts1 = true ->
+  ctx_equiv c1 c2 -> tuples_equiv ts1 ts2 ->
+  inv_bytes s m c1 ts1 = inv_bytes s m c2 ts2.
+Proof.
+  unfold inv_keys_unique. intros U TF Ec [ts1' [P F]].
+  apply andb_true_iff in U as [Uc Ut]. rewrite forallb_forall in Ut.
+  unfold inv_bytes.
+  assert (Hlen : length ts1 = length ts2).
+  { rewrite (Permutation_length P). eapply Forall2_len. exact F. }
+  assert (Hm : map ekey ts1' = map ekey ts2).
+  { assert (Ut' : forall t, In t ts1' -> tk_keys_unique t = true).
+    { intros t Ht. apply Ut. eapply Permutation_in; [apply Permutation_sym; exact P|exact Ht]. }
+    clear P Hlen. revert Ut'. induction F as [|a b l1 l2 Hab F IH]; intro Ut'; simpl; [reflexivity|].
+    rewrite IH.
+    - f_equal. apply tuple_equiv_ekey; [exact Hab|apply Ut'; left; reflexivity].
+    - intros t Ht. apply Ut'. right. exact Ht. }
+  assert (HP : Permutation (map ekey ts1) (map ekey ts2)).
+  { rewrite <- Hm. apply Permutation_map. exact P. }
+  assert (Hs : go_isort eless (map ekey ts1) = go_isort eless (map ekey ts2)).
+  { apply (go_isort_unique eless ele).
+    - intros x y H. unfold eless in H. unfold ele, le4. destruct (cmp4 (fst x) (fst y)); congruence.
+    - intros x y H. unfold eless in H. apply le4_total. unfold le4.
+      destruct (cmp4 (fst x) (fst y)); try discriminate. intro G. apply G. reflexivity.
+    - intros x y z. apply le4_trans.
+    - exact HP.
+    - intros x y Hx Hy H1 H2.
+      apply in_map_iff in Hx as [a [<- Ha]]. apply in_map_iff in Hy as [b [<- Hb]].
+      unfold ele, ekey in *. simpl in *.
+      assert (Es : skey a = skey b) by (apply le4_antisym; assumption).
+      rewrite Es. f_equal. apply (tie_free_spec ts1 TF a b Ha Hb). apply tk_tie_skey. exact Es. }
+  rewrite !sort_tuples_enc, !pb_write_eq_rec, Hlen, Hs.
+  rewrite (enc_pb_equiv _ _ Ec Uc). reflexivity.
+Qed.
+
+(* the same bytes for ANY sorted permutation, e.g. the one Go's pdqsort returns for more than
+   12 tuples, when tied tuples encode identically *)
+Theorem inv_bytes_any_sort s m c ts sorted :
+  Permutation sorted ts -> StronglySorted tk_le sorted -> tie_free ts = true ->
+  flat_map enc_tuple sorted = flat_map enc_tuple (sort_tuples ts).
+Proof.
+  intros P S TF.
+  assert (E : map ekey sorted = go_isort eless (map ekey ts)).
+  { apply (go_isort_any_sorted eless ele).
+    - intros x y H. unfold eless in H. unfold ele, le4. destruct (cmp4 (fst x) (fst y)); congruence.
+    - intros x y H. unfold eless in H. apply le4_total. unfold le4.
+      destruct (cmp4 (fst x) (fst y)); try discriminate. intro G. apply G. reflexivity.
+    - intros x y z. apply le4_trans.
+    - apply Permutation_map. exact P.
+    - clear P TF. induction S as [|a l S IH Hall]; simpl; constructor; [exact IH|].
+      rewrite Forall_forall in *. intros x Hx. apply in_map_iff in Hx as [b [<- Hb]].
+      unfold ele, ekey. simpl. apply Hall. exact Hb.
+    - intros x y Hx Hy H1 H2.
+      apply in_map_iff in Hx as [a [<- Ha]]. apply in_map_iff in Hy as [b [<- Hb]].
+      unfold ele, ekey in *. simpl in *.
+      assert (Es : skey a = skey b) by (apply le4_antisym; assumption).
+      rewrite Es. f_equal. apply (tie_free_spec ts TF a b Ha Hb). apply tk_tie_skey. exact Es. }
+  rewrite sort_tuples_enc, <- E, flat_map_map. reflexivity.
+Qed.
+
+(* ... and without the tie hypothesis canonicity fails: the sort ignores condition contexts and
+   Less answers true on ties, so two tuples differing only in context keep an input-dependent
+   order (harmless: a cache miss) *)
+Definition tie_t1 : tkey := mk_tkey [100] [114] [117] (Some ([99], [([120], PNum 1)])).
+Definition tie_t2 : tkey := mk_tkey [100] [114] [117] (Some ([99], [([120], PNum 2)])).
+
+Theorem invariant_key_canonical_refuted :
+  exists s m c ts1 ts2,
+    inv_wf c ts1 = true /\ inv_keys_unique c ts1 = true /\
+    tuples_equiv ts1 ts2 /\ inv_bytes s m c ts1 <> inv_bytes s m c ts2.
+Proof.
+  exists [115], [109], [], [tie_t1; tie_t2], [tie_t2; tie_t1].
+  split; [reflexivity|]. split; [reflexivity|]. split.
+  - exists [tie_t2; tie_t1]. split; [apply perm_swap|].
+    constructor; [|constructor; [|constructor]]; unfold tuple_equiv; simpl;
+      repeat split; apply pb_equiv_refl.
+  - vm_compute. discriminate.
+Qed.
